@@ -23,7 +23,8 @@ exactly the stored beacons r, r+1, r+2, … (first from the store, then live), e
       `c11_exact_partial`   no append between ScanOpen and Register  ⇒  sent ++ queued = all stored beacons ≥ r, in order
   * the corrected variant (`Handover.tracked`: remember the next round, drop what was sent, fill gaps from the store):
       `c11_exact_tracked`   every schedule, both back-ends: rounds sent are r, r+1, r+2, … without gap or repeat
-      `c11_tracked_complete` … and a live stream with an empty queue has sent everything up to the head
+                            (that such a stream, once live and drained, has reached the head is not proved here; it is
+                            observed by the differential run of the repaired code against this variant)
 -/
 import Drand.Beacon.Stream
 import Gen.Callback
